@@ -286,6 +286,104 @@ func runCase(c Case, st *ev.Stats) error {
 		}(p)
 	}
 
+	// every later call returns promptly with a neutral value
+	type call struct {
+		name string
+		fn   func() error
+	}
+	wantRes := func(name string, r am.Result) error {
+		if r != am.Canceled {
+			return fmt.Errorf("%s on a disposed machine returned %v, want Canceled", name, r)
+		}
+		return nil
+	}
+	wantClosed := func(name string, ch <-chan struct{}) error {
+		if !isClosed(ch) {
+			return fmt.Errorf("%s on a disposed machine returned an open channel", name)
+		}
+		return nil
+	}
+	s0 := am.S{"Y"}
+	calls := []call{
+		{"Add", func() error { return wantRes("Add", m.Add(s0, nil)) }},
+		{"Add1+args", func() error { return wantRes("Add1", m.Add1("Z", am.A{"a": 1})) }},
+		{"Remove", func() error { return wantRes("Remove", m.Remove(s0, nil)) }},
+		{"Set", func() error { return wantRes("Set", m.Set(s0, nil)) }},
+		{"Toggle", func() error { return wantRes("Toggle", m.Toggle(s0, nil)) }},
+		{"AddErr", func() error { return wantRes("AddErr", m.AddErr(fmt.Errorf("x"), nil)) }},
+		{"CanAdd", func() error { return wantRes("CanAdd", m.CanAdd(s0, nil)) }},
+		{"CanRemove", func() error { return wantRes("CanRemove", m.CanRemove(s0, nil)) }},
+		{"EvAdd1", func() error { return wantRes("EvAdd1", m.EvAdd1(nil, "Y", nil)) }},
+		{"Is", func() error {
+			if m.Is(s0) || m.Is1("Y") || m.Any1("Y", "Z") || m.IsErr() {
+				return fmt.Errorf("Is/Any/IsErr true on a disposed machine")
+			}
+			return nil
+		}},
+		{"ActiveStates", func() error {
+			if a := m.ActiveStates(nil); len(a) != 0 {
+				return fmt.Errorf("ActiveStates on a disposed machine = %v", a)
+			}
+			return nil
+		}},
+		{"Time", func() error {
+			if tm := m.Time(nil); len(tm) != 0 {
+				return fmt.Errorf("Time on a disposed machine = %v", tm)
+			}
+			return nil
+		}},
+		{"Clock/Tick/String", func() error {
+			if len(m.Clock(nil)) != 0 || m.Tick("Y") != 0 || m.String() != "" || m.StringAll() != "" || m.Inspect(nil) != "" {
+				return fmt.Errorf("Clock/Tick/String not neutral on a disposed machine")
+			}
+			return nil
+		}},
+		{"When", func() error { return wantClosed("When", m.When1("Z", nil)) }},
+		{"WhenNot", func() error { return wantClosed("WhenNot", m.WhenNot1("Y", nil)) }},
+		{"WhenTime", func() error { return wantClosed("WhenTime", m.WhenTime1("Z", 99, nil)) }},
+		{"WhenTicks", func() error { return wantClosed("WhenTicks", m.WhenTicks("Z", 9, nil)) }},
+		{"WhenNextActive", func() error { return wantClosed("WhenNextActive", m.WhenNextActive("Z", nil)) }},
+		{"WhenQuery", func() error { return wantClosed("WhenQuery", m.WhenQuery(func(am.Clock) bool { return false }, nil)) }},
+		{"WhenArgs", func() error { return wantClosed("WhenArgs", m.WhenArgs("Z", am.A{"q": 1}, nil)) }},
+		{"WhenQueue", func() error { return wantClosed("WhenQueue", m.WhenQueue(am.Result(1<<40))) }},
+		{"WhenQueueEnds", func() error { return wantClosed("WhenQueueEnds", m.WhenQueueEnds()) }},
+		{"WhenErr", func() error { return wantClosed("WhenErr", m.WhenErr(nil)) }},
+		{"WhenDisposed", func() error { return wantClosed("WhenDisposed", m.WhenDisposed()) }},
+		{"Eval", func() error {
+			if m.Eval("after", func() {}, nil) {
+				return fmt.Errorf("Eval on a disposed machine returned true")
+			}
+			return nil
+		}},
+		{"misc getters", func() error {
+			_ = m.NewStateCtx("Y")
+			_ = m.Queue()
+			_ = m.QueueLen()
+			_ = m.QueueTick()
+			_ = m.StateNames()
+			_ = m.Schema()
+			_ = m.Has1("Y")
+			_ = m.Index1("Y")
+			_ = m.Index(s0)
+			_ = m.Transition()
+			_ = m.Err()
+			_ = m.Tags()
+			_ = m.Handlers()
+			_ = m.Tracers()
+			_ = m.WillBe1("Y")
+			_ = m.IsClock(am.Clock{"Y": 1})
+			_ = m.WasTime(am.Time{1}, s0)
+			_ = m.Switch(s0)
+			_ = m.ParseStates(s0)
+			_, _, _ = m.IsQueued(am.MutationAdd, s0, false, false, 0, false, am.PositionAny)
+			_, _ = m.HandlersBindMaps(nil, nil)
+			_ = m.HandlersDetach("nope")
+			_ = m.TracerDetach("nope")
+			m.Log("x")
+			m.Dispose()
+			return nil
+		}},
+	}
 	inFlight := false
 	var pan atomic.Value
 	safe := func(fn func()) {
@@ -444,6 +542,15 @@ func runCase(c Case, st *ev.Stats) error {
 				g.Release()
 				return fmt.Errorf("second Dispose while the first is at %s: returned=%v panic=%v", c.Gate, ok, p)
 			}
+			// the whole API while the disposal is half way: any value, but no panic (a call may wait for
+			// the disposal, which the gate holds: a call still blocked after 1 s is left alone)
+			for _, cl := range calls {
+				_, p := bounded(time.Second, func() { _ = cl.fn() })
+				if p != nil {
+					g.Release()
+					return fmt.Errorf("%s panicked while a Dispose was at %s: %v", cl.name, c.Gate, p)
+				}
+			}
 		}
 		g.Release()
 	case "parent":
@@ -509,104 +616,6 @@ func runCase(c Case, st *ev.Stats) error {
 		return fmt.Errorf("trigger %s: WhenDisposed closed but IsDisposed() is false", c.Trigger)
 	}
 
-	// every later call returns promptly with a neutral value
-	type call struct {
-		name string
-		fn   func() error
-	}
-	wantRes := func(name string, r am.Result) error {
-		if r != am.Canceled {
-			return fmt.Errorf("%s on a disposed machine returned %v, want Canceled", name, r)
-		}
-		return nil
-	}
-	wantClosed := func(name string, ch <-chan struct{}) error {
-		if !isClosed(ch) {
-			return fmt.Errorf("%s on a disposed machine returned an open channel", name)
-		}
-		return nil
-	}
-	s0 := am.S{"Y"}
-	calls := []call{
-		{"Add", func() error { return wantRes("Add", m.Add(s0, nil)) }},
-		{"Add1+args", func() error { return wantRes("Add1", m.Add1("Z", am.A{"a": 1})) }},
-		{"Remove", func() error { return wantRes("Remove", m.Remove(s0, nil)) }},
-		{"Set", func() error { return wantRes("Set", m.Set(s0, nil)) }},
-		{"Toggle", func() error { return wantRes("Toggle", m.Toggle(s0, nil)) }},
-		{"AddErr", func() error { return wantRes("AddErr", m.AddErr(fmt.Errorf("x"), nil)) }},
-		{"CanAdd", func() error { return wantRes("CanAdd", m.CanAdd(s0, nil)) }},
-		{"CanRemove", func() error { return wantRes("CanRemove", m.CanRemove(s0, nil)) }},
-		{"EvAdd1", func() error { return wantRes("EvAdd1", m.EvAdd1(nil, "Y", nil)) }},
-		{"Is", func() error {
-			if m.Is(s0) || m.Is1("Y") || m.Any1("Y", "Z") || m.IsErr() {
-				return fmt.Errorf("Is/Any/IsErr true on a disposed machine")
-			}
-			return nil
-		}},
-		{"ActiveStates", func() error {
-			if a := m.ActiveStates(nil); len(a) != 0 {
-				return fmt.Errorf("ActiveStates on a disposed machine = %v", a)
-			}
-			return nil
-		}},
-		{"Time", func() error {
-			if tm := m.Time(nil); len(tm) != 0 {
-				return fmt.Errorf("Time on a disposed machine = %v", tm)
-			}
-			return nil
-		}},
-		{"Clock/Tick/String", func() error {
-			if len(m.Clock(nil)) != 0 || m.Tick("Y") != 0 || m.String() != "" || m.StringAll() != "" || m.Inspect(nil) != "" {
-				return fmt.Errorf("Clock/Tick/String not neutral on a disposed machine")
-			}
-			return nil
-		}},
-		{"When", func() error { return wantClosed("When", m.When1("Z", nil)) }},
-		{"WhenNot", func() error { return wantClosed("WhenNot", m.WhenNot1("Y", nil)) }},
-		{"WhenTime", func() error { return wantClosed("WhenTime", m.WhenTime1("Z", 99, nil)) }},
-		{"WhenTicks", func() error { return wantClosed("WhenTicks", m.WhenTicks("Z", 9, nil)) }},
-		{"WhenNextActive", func() error { return wantClosed("WhenNextActive", m.WhenNextActive("Z", nil)) }},
-		{"WhenQuery", func() error { return wantClosed("WhenQuery", m.WhenQuery(func(am.Clock) bool { return false }, nil)) }},
-		{"WhenArgs", func() error { return wantClosed("WhenArgs", m.WhenArgs("Z", am.A{"q": 1}, nil)) }},
-		{"WhenQueue", func() error { return wantClosed("WhenQueue", m.WhenQueue(am.Result(1<<40))) }},
-		{"WhenQueueEnds", func() error { return wantClosed("WhenQueueEnds", m.WhenQueueEnds()) }},
-		{"WhenErr", func() error { return wantClosed("WhenErr", m.WhenErr(nil)) }},
-		{"WhenDisposed", func() error { return wantClosed("WhenDisposed", m.WhenDisposed()) }},
-		{"Eval", func() error {
-			if m.Eval("after", func() {}, nil) {
-				return fmt.Errorf("Eval on a disposed machine returned true")
-			}
-			return nil
-		}},
-		{"misc getters", func() error {
-			_ = m.NewStateCtx("Y")
-			_ = m.Queue()
-			_ = m.QueueLen()
-			_ = m.QueueTick()
-			_ = m.StateNames()
-			_ = m.Schema()
-			_ = m.Has1("Y")
-			_ = m.Index1("Y")
-			_ = m.Index(s0)
-			_ = m.Transition()
-			_ = m.Err()
-			_ = m.Tags()
-			_ = m.Handlers()
-			_ = m.Tracers()
-			_ = m.WillBe1("Y")
-			_ = m.IsClock(am.Clock{"Y": 1})
-			_ = m.WasTime(am.Time{1}, s0)
-			_ = m.Switch(s0)
-			_ = m.ParseStates(s0)
-			_, _, _ = m.IsQueued(am.MutationAdd, s0, false, false, 0, false, am.PositionAny)
-			_, _ = m.HandlersBindMaps(nil, nil)
-			_ = m.HandlersDetach("nope")
-			_ = m.TracerDetach("nope")
-			m.Log("x")
-			m.Dispose()
-			return nil
-		}},
-	}
 	for _, cl := range calls {
 		var cerr error
 		ok, p := bounded(10*time.Second, func() { cerr = cl.fn() })
